@@ -160,9 +160,10 @@ func (impl Implementation) Dtrevc3(side lapack.EVSide, howmny lapack.EVHowMany, 
 			panic(badLenSelected)
 		}
 		// Set m to the number of columns required to store the selected
-		// eigenvectors, and standardize the slice selected.
-		// Each selected real eigenvector occupies one column and each
-		// selected complex eigenvector occupies two columns.
+		// eigenvectors. Each selected real eigenvector occupies one
+		// column and each selected complex eigenvector occupies two
+		// columns. The slice selected is standardized below, after the
+		// remaining arguments have been checked.
 		for j := 0; j < n; {
 			if j == n-1 || t[(j+1)*ldt+j] == 0 {
 				// Diagonal 1×1 block corresponding to a
@@ -175,8 +176,6 @@ func (impl Implementation) Dtrevc3(side lapack.EVSide, howmny lapack.EVHowMany, 
 				// Diagonal 2×2 block corresponding to a
 				// complex eigenvalue.
 				if selected[j] || selected[j+1] {
-					selected[j] = true
-					selected[j+1] = false
 					m += 2
 				}
 				j += 2
@@ -211,6 +210,21 @@ func (impl Implementation) Dtrevc3(side lapack.EVSide, howmny lapack.EVHowMany, 
 		panic(badLdVR)
 	case rightv && len(vr) < (n-1)*ldvr+mm:
 		panic(shortVR)
+	}
+
+	if howmny == lapack.EVSelected {
+		// Standardize the slice selected.
+		for j := 0; j < n; {
+			if j == n-1 || t[(j+1)*ldt+j] == 0 {
+				j++
+			} else {
+				if selected[j] || selected[j+1] {
+					selected[j] = true
+					selected[j+1] = false
+				}
+				j += 2
+			}
+		}
 	}
 
 	// Use blocked version of back-transformation if sufficient workspace.
